@@ -24,7 +24,7 @@ RULE = ("(a) 'ofxget stmt|stmtend <nick> -n' with multisets (incl. duplicates) o
         "--all' against a fake server whose ACCTINFORS mixes bank accounts of all five ACCTTYPEs, credit-card, investment and bill-pay accounts with "
         "ACTIVE / PEND / AVAIL status in 1-4 ACCTINFO groups (incl. 'no active account of some kind'), with and without --skipprofile, with and "
         "without a configuration section that already lists accounts. A case = one invocation")
-ASSUMPTIONS = ["UNSPECIFIED, not generated: --all combined with accounts given on the command line; --all with -n; configured accounts of a kind for which the server lists no ACTIVE account",
+ASSUMPTIONS = ["UNSPECIFIED, not generated: --all combined with accounts given on the command line; --all with -n",
                "dates are compared as instants (ref_types.py); investment inctran=False: INCTRAN absent or INCLUDE=N"]
 LEVEL_TEXT = ("Exploration: thousands of real ofxget invocations (in-process main()) with generated account multisets, dates, flags and account-information "
               "responses; what is requested is read off the wire / the dry-run output by independent readers and compared as a multiset.")
@@ -274,12 +274,28 @@ def one_all(ctx, net, rng, idx):
             active["creditcard"].append(a["acctid"])
         elif a["kind"] == "inv":
             active["investment"].append(a["acctid"])
-    # optionally a configuration section that already lists accounts - only for kinds the server reports ACTIVE accounts of
+    # optionally a configuration section that already lists accounts (as one written by an earlier '--all --write' would): of kinds
+    # the server still reports ACTIVE accounts of, of kinds it reports none of, and accounts it now reports as not ACTIVE
     section = {"url": "https://all.example.org/ofx", "user": "alluser"}
-    if rng.random() < 0.4:
+    if rng.random() < 0.5:
+        gone = {t: [] for t in ALLTYPES}
+        for a in accounts:
+            if a["status"] != "ACTIVE":
+                t = a["accttype"].lower() if a["kind"] == "bank" and a["accttype"] != "CD" else {"cc": "creditcard", "inv": "investment"}.get(a["kind"])
+                if t:
+                    gone[t].append(a["acctid"])
         for t in ALLTYPES:
-            if active[t] and rng.random() < 0.6:
-                section[t] = [gen_acct(rng) for _ in range(rng.randint(1, 3))] + ([active[t][0]] if rng.random() < 0.5 else [])
+            if rng.random() < 0.6:
+                lst = [gen_acct(rng) for _ in range(rng.randint(0, 2))] + ([active[t][0]] if active[t] and rng.random() < 0.5 else []) + (
+                    [rng.choice(gone[t])] if gone[t] and rng.random() < 0.7 else [])
+                if lst:
+                    section[t] = lst
+                    if not active[t]:
+                        ctx.count("configured_kind_without_active_account")
+        if any(t in section for t in BANKTYPES):
+            section["bankid"] = bankid
+        if "investment" in section:
+            section["brokerid"] = brokerid
     reset_home()
     write_user_cfg({nick: section})
     seen = []
